@@ -119,29 +119,22 @@ static void reset_models(void) {
 
 /* ------------------------------------------------------------------------------------------------------------------
  * text generator: an input object of EXACTLY g_len bytes, filled left to right */
-static uint8_t *g_txt;
-static size_t g_len, g_p;
+static uint8_t g_txt[AWS_DATE_TIME_STR_MAX_LEN + 28]; /* room for the longest fixed part behind a 100-byte run */
+static size_t g_p;
+struct txt_any { uint8_t b[AWS_DATE_TIME_STR_MAX_LEN + 28]; };
+struct txt_any nondet_txt(void);
 static void gen_begin(void) {
-    g_len = nondet_size_t();
-    __CPROVER_assume(g_len >= 1 && g_len <= AWS_DATE_TIME_STR_MAX_LEN);
-#ifdef GEN_FIXED
-    static uint8_t fixed[AWS_DATE_TIME_STR_MAX_LEN];
-    g_txt = fixed;
-#else
-    g_txt = malloc(g_len);
-    __CPROVER_assume(g_txt != NULL);
-#endif
+    struct txt_any any = nondet_txt(); /* bytes behind the text are arbitrary */
+    for (size_t i = 0; i < sizeof(g_txt); ++i) g_txt[i] = any.b[i];
     g_p = 0;
 }
-static void put(uint8_t c) {
-    __CPROVER_assume(g_p < g_len);
-    g_txt[g_p++] = c;
-}
+static void put(uint8_t c) { g_txt[g_p++] = c; }
+/* the text is the first g_p bytes; only texts of at most 100 bytes get past the length check of the entry point */
 static struct aws_byte_cursor gen_end(void) {
-    __CPROVER_assume(g_p == g_len);
+    __CPROVER_assume(g_p <= AWS_DATE_TIME_STR_MAX_LEN);
     struct aws_byte_cursor c;
     c.ptr = g_txt;
-    c.len = g_len;
+    c.len = g_p;
     return c;
 }
 static int put_digit(void) {
@@ -185,11 +178,10 @@ static bool e_date_only;
 #ifndef GEN_ZONE_Z
 #define GEN_ZONE_Z nondet_bool()
 #endif
-static void gen_iso(void) {
+static void gen_iso(bool dsep, bool tsep) {
     e_hour = e_min = e_sec = 0;
     e_off = 0;
     e_year = put_4digits() - 1900;
-    bool dsep = nondet_bool();
     if (dsep) put('-');
     e_mon = put_2digits() - 1;
     if (dsep) put('-');
@@ -199,7 +191,6 @@ static void gen_iso(void) {
     uint8_t t = nondet_u8();
     __CPROVER_assume(t == 'T' || t == 't' || t == ' ');
     put(t);
-    bool tsep = nondet_bool();
     e_hour = put_2digits();
     if (tsep) put(':');
     e_min = put_2digits();
@@ -207,7 +198,11 @@ static void gen_iso(void) {
     e_sec = put_2digits();
     if (GEN_FRAC) { /* fraction: mark and one or more digits (as many as fit into 100 bytes) */
         put(nondet_bool() ? '.' : ',');
+#ifdef NF
+        size_t nfrac = NF;
+#else
         size_t nfrac = nondet_size_t();
+#endif
 #ifndef MAXFRAC
 #define MAXFRAC AWS_DATE_TIME_STR_MAX_LEN
 #endif
@@ -228,10 +223,10 @@ static void gen_iso(void) {
     }
 }
 
-static void check_iso(enum aws_date_format fmt) {
+static void check_iso(enum aws_date_format fmt, bool dsep, bool tsep) {
     reset_models();
     gen_begin();
-    gen_iso();
+    gen_iso(dsep, tsep);
     struct aws_byte_cursor cur = gen_end();
     struct aws_date_time dt;
     int rc = aws_date_time_init_from_str_cursor(&dt, &cur, fmt);
@@ -250,12 +245,17 @@ static void check_iso(enum aws_date_format fmt) {
     else if (e_off > 0) CANARY("ISO positive offset");
     else if (e_off < 0) CANARY("ISO negative offset");
     else CANARY("ISO Z or zero offset");
-    if (g_len == AWS_DATE_TIME_STR_MAX_LEN) CANARY("ISO 100 bytes (long fraction)");
+    if (g_p == AWS_DATE_TIME_STR_MAX_LEN) CANARY("ISO 100 bytes (long fraction)");
 }
 /* the format selector is a constant per harness (three units) */
-void h_iso_ext(void) { check_iso(AWS_DATE_FORMAT_ISO_8601); }
-void h_iso_basic(void) { check_iso(AWS_DATE_FORMAT_ISO_8601_BASIC); }
-void h_iso_auto(void) { check_iso(AWS_DATE_FORMAT_AUTO_DETECT); }
+#ifdef ONE_SEP
+#define ISO_ALL_SEPARATOR_CHOICES(fmt) do { check_iso(fmt, true, true); } while (0)
+#else
+#define ISO_ALL_SEPARATOR_CHOICES(fmt) do { check_iso(fmt, false, false); check_iso(fmt, true, false); check_iso(fmt, false, true); check_iso(fmt, true, true); } while (0)
+#endif
+void h_iso_ext(void) { ISO_ALL_SEPARATOR_CHOICES(AWS_DATE_FORMAT_ISO_8601); }
+void h_iso_basic(void) { ISO_ALL_SEPARATOR_CHOICES(AWS_DATE_FORMAT_ISO_8601_BASIC); }
+void h_iso_auto(void) { ISO_ALL_SEPARATOR_CHOICES(AWS_DATE_FORMAT_AUTO_DETECT); }
 
 /* ================================================================== RFC 822 ========================================
  * layout family:  [Www] ',' SP  D[D] SP Mon[letters] SP (YYYY|YY) SP hh:mm:ss SP [zone]
@@ -350,7 +350,7 @@ static void check_rfc822(bool weekday, int zone) {
     ASSERT_VIEWS(dt);
     if (fmt == AWS_DATE_FORMAT_AUTO_DETECT) CANARY("RFC 822 auto-detected"); else CANARY("RFC 822 explicit format");
     if (e_off < 0) CANARY("RFC 822 negative offset"); else if (e_off > 0) CANARY("RFC 822 positive offset");
-    if (g_len == AWS_DATE_TIME_STR_MAX_LEN) CANARY("RFC 822 100 bytes");
+    if (g_p == AWS_DATE_TIME_STR_MAX_LEN) CANARY("RFC 822 100 bytes");
 }
 void h_rfc822_utc_names(void) { check_rfc822(true, 1); }
 void h_rfc822_offsets(void) { check_rfc822(true, 2); }
@@ -471,7 +471,7 @@ void h_to_local_short_str(void) { check_to_str(3); }
 void h_init_from_str(void) {
     reset_models();
     gen_begin();
-    gen_iso();
+    gen_iso(nondet_bool(), nondet_bool());
     struct aws_byte_cursor cur = gen_end();
     struct aws_byte_buf b;
     b.buffer = cur.ptr;
